@@ -886,6 +886,109 @@ Section Prefix2.
 End Prefix2.
 
 (* ====================================================================== *)
+(* E2. the second checker (chunk chain only) is sound                       *)
+(* ====================================================================== *)
+Lemma hhitem_chain_cons dT dU b i prev s r pst e :
+  hhitem_ok dT dU b i prev s pst e ->
+  (exists tr', length tr' = length r /\
+     forall j, (j < length r)%nat ->
+       hhitem_ok dT dU b (i + 1 + N.of_nat j) (nth j (s :: r) []) (nth j r []) (nth j (e :: tr') st0_dummy) (nth j tr' st0_dummy)) ->
+  exists tr, length tr = length (s :: r) /\
+     forall j, (j < length (s :: r))%nat ->
+       hhitem_ok dT dU b (i + N.of_nat j) (nth j (prev :: s :: r) []) (nth j (s :: r) []) (nth j (pst :: tr) st0_dummy) (nth j tr st0_dummy).
+Proof.
+  intros He (tr' & Hl & Hit). exists (e :: tr'). split; [cbn [length]; lia|].
+  intros j Hj. destruct j as [|j].
+  - cbn [nth]. rewrite N.add_0_r. exact He.
+  - cbn [length] in Hj. specialize (Hit j ltac:(lia)).
+    replace (i + N.of_nat (Datatypes.S j)) with (i + 1 + N.of_nat j) by lia.
+    change (nth (Datatypes.S j) (prev :: s :: r) []) with (nth j (s :: r) []).
+    change (nth (Datatypes.S j) (s :: r) []) with (nth j r []).
+    change (nth (Datatypes.S j) (pst :: e :: tr') st0_dummy) with (nth j (e :: tr') st0_dummy).
+    change (nth (Datatypes.S j) (e :: tr') st0_dummy) with (nth j tr' st0_dummy).
+    exact Hit.
+Qed.
+
+Lemma hhchain_from_sound dT dU b : str_cap dT < 2 ^ 32 -> h_maxlength dT < 2 ^ 29 -> forall ss i prev bs A pst,
+  hhchain_from dT dU b i prev bs A ss = true ->
+  (i mod b <> 0 -> fst pst = bs /\ holds_adv (snd pst) prev A /\ nul_free prev) ->
+  exists tr, length tr = length ss /\
+    forall j, (j < length ss)%nat ->
+      hhitem_ok dT dU b (i + N.of_nat j) (nth j (prev :: ss) []) (nth j ss []) (nth j (pst :: tr) st0_dummy) (nth j tr st0_dummy).
+Proof.
+  intros Hcap Hml. induction ss as [|s r IH]; intros i prev bs A pst H Hpst; cbn [hhchain_from] in H.
+  - exists []. split; [reflexivity|]. intros j Hj. cbn [length] in Hj. lia.
+  - apply andb_true_iff in H. destruct H as [H0 H]. apply andb_true_iff in H0. destruct H0 as [Hlen Hnf].
+    apply N.ltb_lt in Hlen. apply nul_free_b_sound in Hnf.
+    destruct (i mod b =? 0) eqn:Em.
+    + rewrite rdN_nthN in H.
+      destruct (nthN (h_bl dT) (i / b + 1)) as [off|] eqn:Eo; [|discriminate].
+      destruct (pack_string (h_cw dT) (s ++ [0])) as [[enc o]|] eqn:Ep; [|discriminate].
+      destruct (decode_header dT (i / b + 1)) as [st0|] eqn:Eh; [|discriminate].
+      destruct (reset_scan dT (i / b + 1) st0) as [st1|] eqn:Er; [|discriminate].
+      apply andb_true_iff in H. destruct H as [Hc Hrec]. apply andb_true_iff in Hc. destruct Hc as [Hc Hast].
+      apply andb_true_iff in Hc. destruct Hc as [Hle Hpre].
+      apply N.leb_le in Hle. destruct (hprefix_eqb_sound _ _ Hpre) as [rest Hrest].
+      apply ast_is_sound in Hast.
+      pose proof (reset_scan_holds _ _ _ _ _ Er Hast) as Hh1.
+      apply (hhitem_chain_cons dT dU b i prev s r pst st1).
+      * unfold hhitem_ok. rewrite Em. split; [exact Hh1|].
+        exists off, enc, o, rest, st0. repeat split; assumption.
+      * apply (IH (i + 1) s (fst st1) [] st1 Hrec). intros _. split; [reflexivity|]. split; [|exact Hnf].
+        apply holds_holds_adv; [exact Hh1|].
+        unfold reset_scan in Er. destruct st0 as [b0 a0]. destruct (rdN (h_bl dT) (i / b + 1 + 1)); [|discriminate].
+        inversion Er; subst. reflexivity.
+    + apply N.eqb_neq in Em. destruct (Hpst Em) as (Ebs & Hha & Hnp). subst bs.
+      set (l := lcp prev s) in *. set (suf := skipN l s) in *.
+      apply andb_true_iff in H. destruct H as [Hc H]. apply andb_true_iff in Hc. destruct Hc as [Hl128 Hlt].
+      apply N.ltb_lt in Hl128, Hlt.
+      destruct (item_walk (S (length ((l + 128) :: suf ++ [0]))) dU (fst pst) A (lenN ((l + 128) :: suf ++ [0])))
+        as [[bs' Afull]|] eqn:Ew; [|discriminate].
+      apply andb_true_iff in H. destruct H as [Hc Hrec]. apply andb_true_iff in Hc. destruct Hc as [Hpre Hcp].
+      apply N.ltb_lt in Hcp. apply item_walk_sound in Ew.
+      pose proof (hprefix_eqb_skip _ _ Hpre) as EAf.
+      set (A' := skipN (lenN ((l + 128) :: suf ++ [0])) Afull) in *.
+      destruct (decode_string_item dU (str_cap dT) prev l suf (fst pst) (snd pst) A bs' Afull A' Hcap Hnp
+                  (lcp_le_l prev s) Hl128 (nul_free_skipn _ _ Hnf) (lcp_lt_suffix_ne prev s Hlt) Hha Ew EAf Hcp)
+        as (a' & Ed & Hh').
+      assert (Ecur : firstN l prev ++ suf = s) by (unfold suf, l; apply lcp_rebuild).
+      rewrite Ecur in Hh'.
+      apply (hhitem_chain_cons dT dU b i prev s r pst (bs', a')).
+      * unfold hhitem_ok. destruct (N.eqb_spec (i mod b) 0); [contradiction|]. cbn [fst snd].
+        split; [|exact Ed]. apply (holds_adv_holds _ _ _ Hh'). lia.
+      * apply (IH (i + 1) s bs' A' (bs', a') Hrec). intros _. cbn [fst snd]. split; [reflexivity|]. split; assumption.
+Qed.
+
+Theorem hh_check2_sound S dT dU : hh_check2 S dT dU = true -> hh_ok dT dU (h_bsize dT) S.
+Proof.
+  unfold hh_check2. intros H.
+  repeat (apply andb_true_iff in H; let H' := fresh "C" in destruct H as [H H']).
+  apply N.leb_le in H. apply N.ltb_lt in C7, C5, C2. apply N.eqb_eq in C6, C4, C3.
+  unfold code_chk in C1.
+  repeat (apply andb_true_iff in C1; let H' := fresh "K" in destruct C1 as [C1 H']).
+  apply N.eqb_eq in C1.
+  split; [reflexivity|]. split; [exact H|]. split; [exact C7|]. split; [exact C6|]. split; [exact C5|].
+  split; [exact C4|]. split; [exact C3|].
+  split.
+  { split; [exact C1|]. split; [exact K2|]. split; [exact K1|]. split; [exact K0|].
+    apply Forall_forall. intros c Hc. rewrite forallb_forall in K. specialize (K c Hc). apply N.ltb_lt in K. exact K. }
+  split.
+  { apply Forall_forall. intros x Hx. rewrite forallb_forall in C0. specialize (C0 x Hx). apply N.ltb_lt in C0. exact C0. }
+  assert (Hcap : str_cap dT < 2 ^ 32).
+  { unfold str_cap. rewrite C3. assert (E32 : 2 ^ 32 = 4294967296) by reflexivity.
+    assert (E30 : 2 ^ 29 = 536870912) by reflexivity. rewrite E30 in C2. rewrite E32. lia. }
+  destruct (hhchain_from_sound dT dU (h_bsize dT) Hcap C2 S 0 [] (fst st0_dummy) [] st0_dummy C) as (tr & Hl & Hit).
+  { intros Hne. exfalso. apply Hne. destruct (h_bsize dT); reflexivity. }
+  exists (fun k => nth (N.to_nat k) tr st0_dummy). intros i Hi.
+  specialize (Hit (N.to_nat i) ltac:(unfold lenN in Hi; lia)).
+  rewrite N.add_0_l, N2Nat.id in Hit. fold (snth S i) in Hit.
+  destruct (N.eq_dec i 0) as [->|Hne].
+  - eapply hhitem_ok_first. exact Hit.
+  - replace (N.to_nat i) with (Datatypes.S (N.to_nat (i - 1))) in Hit at 1 2 by lia.
+    cbn [nth] in Hit. exact Hit.
+Qed.
+
+(* ====================================================================== *)
 (* F. the theorems in the form the harness instantiates                    *)
 (* ====================================================================== *)
 Theorem hh_extract_ok dT dU b S : hh_ok dT dU b S -> S <> [] -> Forall nul_free S -> sorted_lt S ->
@@ -981,6 +1084,32 @@ Proof.
   exists (range_of (spec_prefix_ids S p)). split; [apply (hhtfc_locate_prefix_spec S d HV HC p Hp Hp2)|].
   destruct (hhtfc_check_sound S d HC) as (_ & _ & _ & _ & Hn32 & _).
   apply range_ids_spec; [exact Hsort|]. assert (2 ^ 32 < 2 ^ 64) by (apply N.pow_lt_mono_r; lia). lia.
+Qed.
+
+Theorem hhtfc_check2_sound S d : hhtfc_check2 S d = true -> hhtfc_ok d S.
+Proof. unfold hhtfc_check2, hhtfc_ok. apply hh_check2_sound. Qed.
+
+(* the same theorems for objects certified by the second checker, which does not run decodeString *)
+Theorem hhtfc_extract_spec2 S d : valid_set S -> hhtfc_check2 S d = true ->
+  forall id, hhtfc_extract d id = Some (spec_extract S id).
+Proof.
+  intros HV HC. destruct (valid_set_facts S HV) as (Hne & Hnf & Hsort).
+  exact (hh_extract_ok _ _ _ S (hhtfc_check2_sound S d HC) Hne Hnf Hsort).
+Qed.
+
+Theorem hhtfc_locate_spec2 S d : valid_set S -> hhtfc_check2 S d = true ->
+  forall q, nul_free q -> Forall (fun c => c < 256) q -> hhtfc_locate d q = Some (spec_locate S q).
+Proof.
+  intros HV HC. destruct (valid_set_facts S HV) as (Hne & Hnf & Hsort).
+  exact (hh_locate_ok _ _ _ S (hhtfc_check2_sound S d HC) Hne Hnf Hsort).
+Qed.
+
+Theorem hhtfc_locate_prefix_spec2 S d : valid_set S -> hhtfc_check2 S d = true ->
+  forall p, nul_free p -> Forall (fun c => c < 256) p ->
+  hhtfc_locate_prefix d p = Some (range_of (spec_prefix_ids S p)).
+Proof.
+  intros HV HC. destruct (valid_set_facts S HV) as (Hne & Hnf & Hsort).
+  exact (hh_locate_prefix_ok _ _ _ S (hhtfc_check2_sound S d HC) Hne Hnf Hsort).
 Qed.
 
 (* ====================================================================== *)
